@@ -255,6 +255,9 @@ class Engine:
 
             def sfactory():  # type: ignore[no-untyped-def]
                 eng.factory_calls[fid] = eng.factory_calls.get(fid, 0) + 1
+                if eng.fail_next.get(fid, 0) > 0:
+                    eng.fail_next[fid] -= 1
+                    raise FactoryFailed(f"factory {fid} failed")
                 return produce()
 
             factory = sfactory
@@ -754,8 +757,17 @@ class Engine:
         sync_api = api in ("nowait", "nowait_shortcut", "inject_sync")
         self.async_yields = cmd.get("yields", 0)
         had = (t, name) in mc.resources
+        fails = False
+        mf = mc.factories.get((t, name))
+        if cmd.get("fail_factory") and not had and mf is not None and not (mf.is_async and sync_api):
+            # this lookup makes the factory run, and the factory raises
+            fails = True
+            self.fail_next[mf.fid] = 1
+            self.inc("lookups_whose_factory_raises")
         observed = await self.one_lookup(cid, api, t, name, optional)
-        expected, events, generation = self.model.lookup(cid, t, name, optional, sync_api)
+        if mf is not None:
+            self.fail_next.pop(mf.fid, None)
+        expected, events, generation = self.model.lookup(cid, t, name, optional, sync_api, factory_fails=fails)
         self.inc("lookups")
         self.inc(f"lookup_via_{api}")
         what = "lookup[factory]" if generation is not None else "lookup"
@@ -1171,7 +1183,7 @@ class Engine:
                     "yields": rng.randint(0, 3), "factory_async": f.is_async, "fid": f.fid,
                     "fail_first": f.is_async and rng.random() < 0.3}
         return {"op": "lookup", "cid": cid, "api": rng.choices(p["apis"], p.get("api_weights"))[0], "type": t, "name": nm,
-                "optional": rng.random() < 0.4, "yields": rng.randint(0, 2)}
+                "optional": rng.random() < 0.4, "yields": rng.randint(0, 2), "fail_factory": rng.random() < 0.08}
 
     def depth(self, cid: int) -> int:
         d = 0
